@@ -21,6 +21,8 @@ ROOT = os.path.dirname(os.path.dirname(os.path.abspath(__file__)))
 REPO = os.environ.get("CACHES_REPO", "/repo")
 BUILD = os.path.join(ROOT, ".build")
 HARNESS = os.path.join(ROOT, "harness")
+# where evidence/ and replays/ are written (self-tests against scratch copies redirect this)
+OUT = os.environ.get("VERIF_OUT", ROOT)
 NCPU = int(os.environ.get("VERIF_JOBS", "16"))
 
 EXIT_ASAN = 97
@@ -300,7 +302,7 @@ def match_known(known, prop, sig):
 # --------------------------------------------------------------------------------------
 
 def write_evidence(prop, tier, seed, level, coverage, assumptions, wall, nviol):
-    os.makedirs(os.path.join(ROOT, "evidence"), exist_ok=True)
+    os.makedirs(os.path.join(OUT, "evidence"), exist_ok=True)
     ev = dict(
         property_id=prop,
         tier=tier,
@@ -311,7 +313,7 @@ def write_evidence(prop, tier, seed, level, coverage, assumptions, wall, nviol):
         wall_s=round(wall, 2),
         violations=nviol,
     )
-    p = os.path.join(ROOT, "evidence", prop + ".json")
+    p = os.path.join(OUT, "evidence", prop + ".json")
     tmp = p + ".tmp"
     with open(tmp, "w") as f:
         json.dump(ev, f, indent=1, sort_keys=True)
@@ -320,9 +322,9 @@ def write_evidence(prop, tier, seed, level, coverage, assumptions, wall, nviol):
 
 
 def write_replay(prop, sig, payload):
-    os.makedirs(os.path.join(ROOT, "replays"), exist_ok=True)
+    os.makedirs(os.path.join(OUT, "replays"), exist_ok=True)
     h = hashlib.sha1(sig.encode()).hexdigest()[:10]
-    p = os.path.join(ROOT, "replays", "%s-%s.json" % (prop, h))
+    p = os.path.join(OUT, "replays", "%s-%s.json" % (prop, h))
     with open(p, "w") as f:
         json.dump(payload, f, indent=1, sort_keys=True)
     return p
